@@ -22,6 +22,7 @@ PROP = dict(
         E("enum", "A", "./c07", "TestC07Enum", 1, 1),
         R("words", "A", "./c07", "TestC07Words", (8000, 4), (300000, 16)),
         R("texts", "A", "./c07", "TestC07Texts", (10000, 4), (300000, 16)),
+        R("flags", "B", "./cmd/benchstat", "TestC07Flags", (300, 1), (2000, 2)),
         F("fuzz", "./c07", "FuzzC07", 120),
     ],
 )
